@@ -327,7 +327,8 @@ Definition M_sub_read (gpos : bool) (data : list N) (pos : N) (lookupType : N) :
   match seek data pos with
   | a :: b :: _ =>
     let key := (10 * lookupType + w16 a b) mod 65536 in
-    if gpos then
+    if (10 <=? lookupType) || (10 <=? w16 a b) then Err    (* the key is uint16 arithmetic *)
+    else if gpos then
       if negb (memN key gpos_keys) then Err
       else if key =? 11 then x <- M_gpos11_read data pos ;; Ok (SGpos11 (fst x) (snd x))
       else if key =? 12 then x <- M_gpos12_read data pos ;; Ok (SGpos12 (fst x) (snd x))
